@@ -170,7 +170,11 @@ def _rebase(ctx, sel):
     """give a copied select fresh base table names (so that branches read different tables)"""
     for r in sel["from"]["rels"]:
         if r["k"] == "base":
+            old = r["t"]["n"]
             r["t"] = T(ctx.base(), r["t"]["s"])
+            for it in sel["items"]:
+                if it["e"][0] == "star" and it["e"][1] == old:
+                    it["e"][1] = r["t"]["n"]
 
 
 SHAPE_ARITY = {"one": 1, "join": 2, "comma": 2, "join3": 3, "left_using": 2, "cross": 2, "join_comma": 3, "comma_join": 3, "nested_paren": 2,
